@@ -215,9 +215,23 @@ func relevantItems(r *FuncResult, o *Obl) []bool {
 	return keep
 }
 
-func buildScript(r *FuncResult, o *Obl) string {
+func buildScript(r *FuncResult, o *Obl) string { return buildScriptMode(r, o, false) }
+
+// groundPreamble: the preamble with `at` defined instead of axiomatised (no quantifier left).
+var groundPreamble = strings.Replace(strings.Replace(preamble,
+	"(declare-fun at ((_ BitVec 64) (_ BitVec 64)) (_ BitVec 64))",
+	"(define-fun at ((o (_ BitVec 64)) (j (_ BitVec 64))) (_ BitVec 64) (bvadd o j))", 1),
+	"(assert (forall ((o (_ BitVec 64)) (j (_ BitVec 64))) (! (= (at o j) (bvadd o j)) :pattern ((at o j)))))", "", 1)
+
+// buildScriptMode: with ground set, every quantified assumption is left out (a sound weakening of the context
+// that decides most safety and call-site obligations in milliseconds).
+func buildScriptMode(r *FuncResult, o *Obl, ground bool) string {
 	var b strings.Builder
-	b.WriteString(preamble)
+	if ground {
+		b.WriteString(groundPreamble)
+	} else {
+		b.WriteString(preamble)
+	}
 	var keep []bool
 	if !noPrune {
 		keep = relevantItems(r, o)
@@ -249,10 +263,16 @@ func buildScript(r *FuncResult, o *Obl) string {
 		case "def":
 			fmt.Fprintf(&b, "(define-fun %s () %s %s)\n", it.Name, it.Sort, it.Body)
 		case "assert":
+			if ground && (strings.Contains(it.Body, "(forall ") || strings.Contains(it.Body, "(exists ")) {
+				continue
+			}
 			fmt.Fprintf(&b, "(assert %s)\n", it.Body)
 		case "declfun":
 			fmt.Fprintf(&b, "(declare-fun %s (%s) %s)\n", it.Name, it.Args, it.Sort)
 		case "raw":
+			if ground && (strings.Contains(it.Body, "(forall ") || strings.Contains(it.Body, "(exists ")) {
+				continue
+			}
 			b.WriteString(it.Body)
 			b.WriteString("\n")
 		}
@@ -386,6 +406,17 @@ func discharge(r *FuncResult, o *Obl, dir string, timeout float64, thorough bool
 			return true
 		}
 		return false
+	}
+	// stage 0: quantifier-free weakening of the context
+	if o.Expect != "sat" && os.Getenv("GOVC_NOGROUND") == "" && !strings.Contains(o.Goal, "(exists ") {
+		gfile := strings.TrimSuffix(file, ".smt2") + ".ground.smt2"
+		if err := os.WriteFile(gfile, []byte(buildScriptMode(r, o, true)), 0o644); err == nil {
+			g := runSolver(context.Background(), solvers[0], gfile, 1.0)
+			if g.status == "unsat" {
+				v.Status, v.Solver = "proved", g.solver+"-ground"
+				return v
+			}
+		}
 	}
 	// stage A: z3-new alone, short
 	quick := 1.5
